@@ -11,7 +11,7 @@ else
   git -C /repo worktree add --detach $WT $REV >/dev/null 2>&1 || exit 2
 fi
 cp $DEMO $WT/luahelper-lsp/$PKG/
-( cd $WT/luahelper-lsp && go test -vet=off -count=1 -timeout 120s -run "$RUN" ./$PKG/ 2>&1 | tail -${TAILN:-25} ; exit ${PIPESTATUS[0]} ); rc=$?
+( cd $WT/luahelper-lsp && go test -vet=off -count=1 -timeout 120s ${GOTESTV:-} -run "$RUN" ./$PKG/ 2>&1 | tail -${TAILN:-25} ; exit ${PIPESTATUS[0]} ); rc=$?
 if [ "$REV" = WORKTREE ]; then rm -rf $WT; else git -C /repo worktree remove --force $WT >/dev/null 2>&1; fi
 echo "demo rc=$rc (rev=$REV)"
 exit $rc
